@@ -798,6 +798,8 @@ void GlobalGraph::setRoot(Graph::NodeId newRoot)
 {
   nodeMustExist_(newRoot, "new root");
   root_ = newRoot;
+  // whether the graph is a tree hanging from its root depends on the root
+  this->topologyHasChanged_();
 }
 
 Graph::NodeId GlobalGraph::getRoot() const
